@@ -310,8 +310,8 @@ def obligations(tier):
         half = (ksum % 4) // 2
         return xs_, zs_, XOR(XOR(ra, rb), half == 1), (ksum % 2) == 0
 
-    def measure_body(cx, wrong=False, n=2):
-        q = cx.choose('q', n)
+    def measure_body(cx, wrong=False, n=2, qfix=None):
+        q = qfix if qfix is not None else cx.choose('q', n)
         tab = sym_tableau(cx, n)
         # representation invariant: symplectic relations between all rows
         conds = []
@@ -600,12 +600,13 @@ def obligations(tier):
                 nm = f'chform.rule.{rname}.n2.x{xs_[0]}'
                 obs.append(Obligation(nm, lambda cx, rname=rname, xs_=xs_: chrule_body(cx, rname, xs=xs_, nq=2), twin=(lambda cx, rname=rname, xs_=xs_: chrule_body(cx, rname, wrong=True, xs=xs_, nq=2)) if si == 0 else None, opts={'weight': 10, 'vc_timeout_ms': 120000}, desc=CHR_DESC))
 
-    for n_ in ([2] if tier == 'quick' else [2, 3]):
+    # n = 3 is sharded over the measured qubit (each shard is a long serial exploration)
+    for n_, qf in ([(2, None)] if tier == 'quick' else [(2, None), (3, 0), (3, 1), (3, 2)]):
         obs.append(
             Obligation(
-                f'tableau.measure.n{n_}',
-                lambda cx, n_=n_: measure_body(cx, n=n_),
-                twin=lambda cx, n_=n_: measure_body(cx, wrong=True, n=n_),
+                f'tableau.measure.n{n_}' + ('' if qf is None else f'.q{qf}'),
+                lambda cx, n_=n_, qf=qf: measure_body(cx, n=n_, qfix=qf),
+                twin=(lambda cx, n_=n_, qf=qf: measure_body(cx, wrong=True, n=n_, qfix=qf)) if qf in (None, 0) else None,
                 opts={'weight': 50, 'max_paths': 400000, 'depth_limit': 2000},
                 desc=f'CliffordTableau._measure(q) from an ARBITRARY VALID {n_}-qubit tableau (all bits symbolic, symplectic invariant assumed), both coin outcomes: random case - the pivot row becomes (-1)^outcome Z_q, its destabilizer the old pivot, every other row (stabilizers AND destabilizers) anticommuting with Z_q is multiplied by the pivot with the matrix-derived sign, the rest unchanged; deterministic case - outcome equals the sign of Z_q in the stabilizer group and the tableau is unchanged',
             )
